@@ -169,6 +169,12 @@ func (c *Conn) setSession(session Session) {
 	c.session = session
 }
 
+func (c *Conn) chunkPipe() *io.PipeWriter {
+	c.locker.Lock()
+	defer c.locker.Unlock()
+	return c.bdatPipe
+}
+
 func (c *Conn) Close() error {
 	c.locker.Lock()
 	defer c.locker.Unlock()
@@ -241,7 +247,7 @@ func (c *Conn) handleGreet(enhanced bool, arg string) {
 	c.helo = domain
 
 	// RFC 5321: "An EHLO command MAY be issued by a client later in the session"
-	if c.session != nil {
+	if c.Session() != nil {
 		// RFC 5321: "... the SMTP server MUST clear all buffers
 		// and reset the state exactly as if a RSET command has been issued."
 		c.reset()
@@ -317,7 +323,7 @@ func (c *Conn) handleMail(arg string) {
 		c.writeResponse(502, EnhancedCode{5, 5, 1}, "Please introduce yourself first.")
 		return
 	}
-	if c.bdatPipe != nil {
+	if c.chunkPipe() != nil {
 		c.writeResponse(502, EnhancedCode{5, 5, 1}, "MAIL not allowed during message transfer")
 		return
 	}
@@ -685,7 +691,7 @@ func (c *Conn) handleRcpt(arg string) {
 		c.writeResponse(502, EnhancedCode{5, 5, 1}, "Missing MAIL FROM command.")
 		return
 	}
-	if c.bdatPipe != nil {
+	if c.chunkPipe() != nil {
 		c.writeResponse(502, EnhancedCode{5, 5, 1}, "RCPT not allowed during message transfer")
 		return
 	}
@@ -938,7 +944,7 @@ func (c *Conn) handleData(arg string) {
 		c.writeResponse(501, EnhancedCode{5, 5, 4}, "DATA command should not have any arguments")
 		return
 	}
-	if c.bdatPipe != nil {
+	if c.chunkPipe() != nil {
 		c.writeResponse(502, EnhancedCode{5, 5, 1}, "DATA not allowed during message transfer")
 		return
 	}
@@ -1025,9 +1031,15 @@ func (c *Conn) handleBdat(arg string) {
 		c.bdatStatus = c.createStatusCollector()
 	}
 
-	if c.bdatPipe == nil {
+	// Server.Close may close and clear c.bdatPipe at any time: it is only
+	// accessed under the lock, the transfer goes through a local copy.
+	pipe := c.chunkPipe()
+	if pipe == nil {
 		var r *io.PipeReader
-		r, c.bdatPipe = io.Pipe()
+		r, pipe = io.Pipe()
+		c.locker.Lock()
+		c.bdatPipe = pipe
+		c.locker.Unlock()
 
 		c.dataResult = make(chan error, 1)
 
@@ -1074,7 +1086,7 @@ func (c *Conn) handleBdat(arg string) {
 	c.lineLimitReader.LineLimit = 0
 
 	chunk := io.LimitReader(c.text.R, int64(size))
-	n, err := io.Copy(c.bdatPipe, chunk)
+	n, err := io.Copy(pipe, chunk)
 	if err == nil && n < int64(size) {
 		// The connection was lost inside the chunk.
 		err = io.ErrUnexpectedEOF
@@ -1109,7 +1121,7 @@ func (c *Conn) handleBdat(arg string) {
 	if last {
 		c.lineLimitReader.LineLimit = c.server.MaxLineLength
 
-		c.bdatPipe.Close()
+		pipe.Close()
 
 		err := <-c.dataResult
 
